@@ -45,6 +45,13 @@ def cases(tier, seed):
         yield {"kind": "store", "seed": seed, "idx": i, "count": 10}
     k = 0
     for rep in range(1 if tier == "quick" else 4):
+        for how in INPROC:  # the code base evolves inside the running process, after the metadata was read once
+            for cluster in (None, "named.cl-1"):
+                # (without a memory cache: a cache hands back the memento object it decoded before the change, with
+                # the references as resolved then - that is not a read of stored metadata and is not judged)
+                for r2 in range(2):
+                    yield {"kind": "evolve_inproc", "seed": seed, "idx": k, "how": how, "cluster": cluster, "cache": False}
+                    k += 1
         for shape in SHAPES:
             for evo in EVOLUTIONS:
                 for cluster in (None, "named.cl-1"):
@@ -52,6 +59,9 @@ def cases(tier, seed):
                         yield {"kind": "evolve", "seed": seed, "idx": k, "evolution": evo, "cluster": cluster, "cache": cache,
                                "shape": shape}
                         k += 1
+
+
+INPROC = ["control", "removed", "variable_rebound", "helper_redefined", "replaced_by_plain"]
 
 
 # ---------------------------------------------------------------- names
@@ -415,6 +425,115 @@ def run_evolve(case, out, fail):
         out["sample"] = {"evolution": evolution, "cluster": cluster, "second_process": results[1]["steps"][:2]}
 
 
+INPROC_MODULE = (
+    "import twosigma.memento as m\nfrom vf.recorder import REC\nCL = %r\nK = 1\n\n"
+    "def helper(x):\n    return x + K\n\n"
+    "@m.memento_function(cluster=CL)\ndef callee(x):\n    REC.hit(\"callee\", x)\n    return helper(x)\n\n"
+    "@m.memento_function(cluster=CL, version=\"pinned\")\ndef caller(x):\n    REC.hit(\"caller\", x)\n    return [x, callee(x)]\n")
+
+
+def inproc_child(arg):
+    import linecache
+
+    import twosigma.memento as m
+    from vf.recorder import REC
+
+    root, modname, cluster, cache, how = arg["root"], arg["mod"], arg["cluster"], arg["cache"], arg["how"]
+    mb = 16 if cache else None
+    clusters = {}
+    if cluster is not None:
+        clusters[cluster] = env.fs_backend(os.path.join(root, "named"), cache_mb=mb)
+    env.set_env(os.path.join(root, "env"), default_storage=env.fs_backend(os.path.join(root, "default"), cache_mb=mb),
+                clusters=clusters)
+    sys.path.insert(0, arg["src"])
+    mod = importlib.import_module(modname)
+
+    def observe():
+        res = {}
+
+        def step(name, f):
+            try:
+                res[name] = ["ok", f()]
+            except Exception as e:
+                import traceback
+
+                res[name] = ["raise", "%s: %s" % (type(e).__name__, str(e)[:200]), traceback.format_exc()[-500:]]
+
+        def refs_of(mem):
+            return {"invocations": [[x.fn_reference.qualified_name, bool(x.fn_reference.external)]
+                                    for x in mem.invocation_metadata.invocations],
+                    "dependencies": sorted([r.qualified_name, bool(r.external)] for r in mem.function_dependencies)}
+
+        mark = REC.mark()
+        step("call", lambda: [mod.caller(1), [e[0] for e in REC.since(mark)]])
+        step("memento", lambda: refs_of(mod.caller.memento(1)))
+        step("list_mementos", lambda: [refs_of(x) for x in mod.caller.list_mementos()])
+        step("list_functions", lambda: sorted([r.qualified_name, bool(r.external)] for r in m.list_memoized_functions(cluster)))
+        return res
+
+    before = observe()
+    if how == "removed":
+        del mod.callee
+    elif how == "variable_rebound":
+        mod.K = 2  # callee's version depends on it; nothing is registered, nobody asks for a version
+    elif how in ("helper_redefined", "replaced_by_plain"):
+        src = "def helper(x):\n    return x + K + 10\n" if how == "helper_redefined" else "def callee(x):\n    return x + 100\n"
+        name = "<vf12-cell>"
+        linecache.cache[name] = (len(src), None, src.splitlines(True), name)
+        exec(compile(src, name, "exec"), mod.__dict__)
+    REC.mark()
+    return {"before": before, "after": observe()}
+
+
+def run_evolve_inproc(case, out, fail):
+    how, cluster = case["how"], case["cluster"]
+    label = "in-process evolution '%s', %s cluster, cache=%s" % (how, "default" if cluster is None else "named", case["cache"])
+    with env.Scratch() as sc:
+        modname = "vpinp_%d_%d" % (case["seed"], case["idx"])
+        src = sc.path("src")
+        os.makedirs(src)
+        with open(os.path.join(src, modname + ".py"), "w") as f:
+            f.write(INPROC_MODULE % (cluster,))
+        try:
+            res = procs.in_child(inproc_child, {"root": sc.root, "src": src, "mod": modname, "cluster": cluster,
+                                                "cache": case["cache"], "how": how})
+        except procs.ChildFailed as e:
+            return fail("harness: evolution child failed", "%s: %s" % (label, e))
+        b, a = res["before"], res["after"]
+        if b["call"][0] != "ok" or b["call"][1][0] != [1, 2] or b["memento"][0] != "ok":
+            return fail("harness: first observation did not compute the pair", "%s: %s" % (label, b))
+        out["obs"]["evolved_processes_observed"] += 1
+        gone = how != "control"
+        for name, s in a.items():
+            out["obs"]["reads_after_evolution"] += 1
+            if s[0] == "raise":
+                fail("reading stored metadata raises after the code base evolved (%s)" % s[1].split(":")[0],
+                     "%s: %s raises %s ... %s" % (label, name, s[1], s[2][-300:]))
+        if a["call"][0] == "ok" and (a["call"][1][0] != [1, 2] or a["call"][1][1]):
+            fail("an entry whose own version is current is not served",
+                 "%s: pinned caller returned %s and ran bodies %s" % (label, a["call"][1][0], a["call"][1][1]))
+        seen = []
+        if a["memento"][0] == "ok":
+            seen += a["memento"][1]["invocations"] + a["memento"][1]["dependencies"]
+        if a["list_mementos"][0] == "ok":
+            if len(a["list_mementos"][1]) != 1:
+                fail("stored entry is not listed after the code base evolved", "%s: %s" % (label, a["list_mementos"][1]))
+            for r in a["list_mementos"][1]:
+                seen += r["invocations"] + r["dependencies"]
+        if a["list_functions"][0] == "ok":
+            seen += a["list_functions"][1]
+        for qn, external in seen:
+            if ":callee#" in qn:
+                out["obs"]["references_to_old_versions_checked"] += 1
+                out["obs"]["references_checked_after_in_process_evolution"] += 1
+                if external != gone:
+                    fail("a reference to a version that no longer exists is not reported as external"
+                         if gone else "a reference to an existing version is reported as external",
+                         "%s: %s external=%s (the same process had read this metadata before the change)" % (label, qn, external))
+        out["nontrivial"].append("inproc|%s|%s" % (how, "default" if cluster is None else "named"))
+        out["sample"] = {"in_process_evolution": how, "cluster": cluster, "after": a["memento"]}
+
+
 def run_case(case):
     out = {"viol": [], "nontrivial": [], "obs": collections.Counter()}
 
@@ -422,7 +541,7 @@ def run_case(case):
         if len(out["viol"]) < 8:
             out["viol"].append({"sig": sig, "msg": msg})
 
-    {"parse": run_parse, "store": run_store, "evolve": run_evolve}[case["kind"]](case, out, fail)
+    {"parse": run_parse, "store": run_store, "evolve": run_evolve, "evolve_inproc": run_evolve_inproc}[case["kind"]](case, out, fail)
     out["obs"] = dict(out["obs"])
     return out
 
@@ -430,4 +549,5 @@ def run_case(case):
 def conclude(agg):
     return core.first(core.need(agg, "names_parsed", 1500), core.need(agg, "names_stored_and_looked_up", 100),
                       core.need(agg, "evolved_processes_observed", 40), core.need(agg, "references_to_old_versions_checked", 50),
-                      core.need(agg, "function_valued_arguments_read_back", 20), core.need(agg, "ambiguous_names_seen", 1)), {}
+                      core.need(agg, "function_valued_arguments_read_back", 20),
+                      core.need(agg, "references_checked_after_in_process_evolution", 40), core.need(agg, "ambiguous_names_seen", 1)), {}
